@@ -106,7 +106,8 @@ mod util;
 mod voronoi;
 
 pub use voronoi::{
-    convex_cell::Vertex, half_space::HalfSpace, integrals, ConvexCell, Dimensionality, Voronoi,
+    convex_cell::{ConvexCellMarker, Vertex, WithFaces, WithoutFaces},
+    half_space::HalfSpace, integrals, ConvexCell, Dimensionality, Voronoi,
     VoronoiCell, VoronoiFace, VoronoiIntegrator,
 };
 
